@@ -604,7 +604,7 @@ def run(cx):
 
     # ---- C07-PURE ----------------------------------------------------------------------------
     from . import c10
-    c10.rule_global_state(cx, "C07-PURE", [pm])
+    c10.rule_global_state(cx, "C07-PURE", [pm], floor=1, only={"_collect_block", "_collect_if_structure", "_collect_try_structure", "_indent_of", "_strip_inline_comment", "parse", "_parse_simple_lines", "_parse_function"})
 
     # ---- C07-EMIT ----------------------------------------------------------------------------
     rule_emit(cx, "C07-EMIT")
